@@ -582,6 +582,8 @@ def run_property(mod, tier: str) -> int:
     for name, sub in checks.items():
         if sub.hidden:
             continue
+        if os.environ.get("VERIF_ONLY_SUB") and name not in os.environ["VERIF_ONLY_SUB"].split(","):
+            continue  # debugging aid only: never set by the registered commands
         ts = time.time()
         try:
             st, fails = run_sub(sub, SEED)
